@@ -1898,6 +1898,10 @@ class Walker:
             if k == "raise":
                 handled = False
                 vague = p.origin in ("dynamic", "unknown-callable", "opaque")
+                # a file-system primitive "may fail with OSError" stands for the whole family
+                # (FileExistsError, FileNotFoundError, PermissionError, IsADirectoryError, ...):
+                # a handler for one member possibly catches it, and it possibly passes the handler
+                vague = vague or (p.exc == "OSError" and p.origin in ("implicit", "io-write"))
                 for h in n.handlers:
                     names = self.handler_classes(h, s)
                     dyn = "?dynamic" in names
